@@ -145,6 +145,7 @@ class Fallback(Val):
 
 _FRAMES = {}
 _FRAME_SEQ = [0]
+MAX_DEPTH = 40        # nested interpretations (followed callees, closures); termination is bounded by max_steps as well
 UNKNOWN = Val("unknown")
 UNIT = Val("unit")
 NONE_V = Val("variant", "None", "core::option::Option")
@@ -1037,7 +1038,7 @@ class Interp:
                     self._res.calls.append((fake, list(cargs), r))
                 return r
             return Val("unknown", "ret:%s" % key)
-        if cb is None or self.depth > 6:
+        if cb is None or self.depth > MAX_DEPTH:
             return UNKNOWN
         sub = Interp(cb, self.call_model, self.max_steps)
         sub.depth = self.depth + 1
@@ -1186,7 +1187,7 @@ class Interp:
                 cs = CallSite(body, bb, t)
                 args = [self.operand(env, a) for a in cs.args]
                 r = self.stateful_call(env, cs, args)
-                if r is None and self.follow is not None and self.depth < 6:
+                if r is None and self.follow is not None and self.depth < MAX_DEPTH:
                     r = self.follow_call(cs, args)
                 if r is None:
                     r = self.model_call(cs, args)
